@@ -110,6 +110,14 @@ func genRelWorld(r *Rng, prop string, tweak func(c *GenCfg)) *World {
 	root := GenNode(r, &c, 0, true)
 	if prop == "C09" {
 		AddEmptyZogTag(r, root, 0.12)
+		// a field named "-" by its tag is a field like any other
+		root.Walk(func(n *Node) {
+			if n.Kind == "struct" && r.P(0.1) {
+				if f := n.Fields[r.Intn(len(n.Fields))]; len(f.Tags) == 0 {
+					f.Tags = []KV{{"zog", VS("-")}}
+				}
+			}
+		})
 	}
 	w.Schemas = []*Node{root}
 	no := 1 + r.Intn(3)
